@@ -71,8 +71,44 @@ class BasePolicy:
     def eval_subscript(self, expr, state, flow):
         return self.eval(expr.value, state, flow)
 
+    # interprocedural helper summaries: a policy that sets ``prog``/``fn`` and implements
+    # ``clone_for(callee, seeds)`` gets calls of small package helpers analysed with the
+    # argument tags as parameter seeds (memo-free, depth-bounded)
+    prog = None
+    fn = None
+    may_union = False
+    _depth = 0
+
+    def clone_for(self, callee, seeds):
+        return None
+
+    def summarise_call(self, expr, state, flow):
+        if self.prog is None or self.fn is None or self._depth >= 3:
+            return EMPTY
+        from .model import FunctionInfo, bind_args
+
+        targets = [t for t in self.prog.resolve_call(self.fn, expr) if isinstance(t, FunctionInfo)]
+        if len(targets) != 1 or targets[0] is self.fn:
+            return EMPTY
+        callee = targets[0]
+        b = bind_args(callee, expr)
+        seeds = {p: self.eval(a, state, flow) for p, a in b.items()}
+        pol = self.clone_for(callee, seeds)
+        if pol is None:
+            return EMPTY
+        pol._depth = self._depth + 1
+        sub = TagFlow(self.prog, callee, pol, may=self.may_union)
+        acc = None
+        for n in ast.walk(callee.node):
+            if isinstance(n, ast.Return) and n.value is not None and self.prog.function_of(n) is callee:
+                t = sub.tags(n.value)
+                if t is None:
+                    continue
+                acc = t if acc is None else ((acc | t) if self.may_union else (acc & t))
+        return acc if acc is not None else EMPTY
+
     def eval_call(self, expr, state, flow):
-        return EMPTY
+        return self.summarise_call(expr, state, flow)
 
     def eval_other(self, expr, state, flow):
         return EMPTY
